@@ -48,4 +48,12 @@ def run(tier="quick", seed=0, use_cache=True):
         pyreadcur = None
     if pyreadcur is not None:
         pyreadcur.check(res)
+    # the leaf merge decides "merge, serialise or conflict": its decision
+    # tables (C07) are part of this property's mechanism
+    from . import C07
+    r7 = C07.run(tier=tier, seed=seed, use_cache=use_cache)
+    for f in r7.findings:
+        res.findings.add(f)
+    res.count("MERGE-TABLE", r7.instances.get("MERGE-TABLE", 0))
+    res.rules.append("MERGE-TABLE (shared with C07)")
     return res
